@@ -7,9 +7,30 @@ TECH = "deterministic simulation with fault injection: seeded search over schedu
 
 # id -> (engine, design_ref, level text, level note, thorough?)
 CLAIMED = {
+ "C01": ("F", "DESIGN.md §7 C01, §3.2",
+   "Seeded exploration (engine F): real EncodeBody (client/server role, identity/gzip/deflate/zstd, raw and prost codecs, randomised buffer/yield settings) is driven under a drawn source-readiness schedule and under the all-Ready reference schedule; the emitted bytes must be identical, parse with an independent decoder, and — re-cut at drawn offsets (inside prefixes, inside compressed payloads, 1-byte chunks) and delivered with delays — decode through real Streaming into exactly the original messages, then a clean end. Evidence, not proof.",
+   "Trusted: independent frame parser, flate2 write::*/zstd bulk. Per-response opt-out is exercised via server::Grpc in the C02/C05 loopback scenarios."),
+ "C02": ("F", "DESIGN.md §7 C02, §3.2",
+   "Seeded exploration (engine F): generated clients call generated servers (raw codec, prost with/without package; all four shapes) over a loopback whose request and response bodies are re-chunked and delayed by the tape; scripted handlers produce k messages then OK or any Status (Unicode message, details, metadata), possibly refusing the call; the oracle is the identity channel on messages, metadata and status in both directions. Evidence, not proof.",
+   "Fault-free configuration only in engine F (no body kills); HTTP/2 multiplexing/fragmentation is engine N (added when built). Trusted: harness handlers and loopback."),
+ "C03": ("F", "DESIGN.md §7 C03",
+   "Passive wire monitor on every C01/C02/C06 run: request head (POST, HTTP/2, path, content-type, te), response head (200, content-type), bodies parsed by an independent length-prefix parser and inflated with the announced encoding against the codec's serialization, exactly one grpc-status in a single final trailers block or in body-less headers, no request trailers. Evidence, not proof.",
+   "'Nothing after trailers' is judged as hyper's HTTP/2 sender consumes a body. In engine F the wire is the http::Request/Response handed to the transport seam."),
+ "C04": ("F", "DESIGN.md §7 C04",
+   "Seeded exploration + complete enumeration of the two tables (engine F): a scripted hostile peer answers a generated client with arbitrary/malformed grpc-status, grpc-message (bad percent-encoding, bad UTF-8), grpc-status-details-bin (bad base64); every HTTP status 100..=599 without grpc-status; every reset reason 0..=15 as an h2::Error body error; oracle = never panic, always a definite Status, mapping tables of the property. The status round-trip clause is sampled by the C02 loopback runs.",
+   "The for-all-statuses round trip is a pure function: sampled, not decided. Resets through a real hyper::Error are engine N."),
+ "C05": ("F", "DESIGN.md §7 C05",
+   "Complete enumeration of the 2048 (server accept, server send, client send, client accept) configurations followed by seeded exploration (engine F): two tonic parties over the loopback, a foreign client peer with arbitrary grpc-accept-encoding/grpc-encoding values and flag bytes against a tonic server, a foreign server peer against a tonic client; oracle = reference negotiation function (chosen in send ∩ offered, UNIMPLEMENTED + exact accept list on refusal, INTERNAL for an ill-flagged message, client sends/advertises exactly its configuration).",
+   "Whether a server must compress when it could is not prescribed (probe only)."),
+ "C06": ("F", "DESIGN.md §7 C06",
+   "Seeded exploration (engine F): Streaming with a decoding limit fed frames whose wire length is limit-1/limit/limit+1 (also compressed, also at the 4 MiB default) and declared lengths up to 2^32-1 followed by a silent peer, under a counting allocator; EncodeBody with an encoding limit and an oversized message at any position of a stream whose earlier messages are buffered or flushed depending on readiness; thorough adds the >4 GiB probe.",
+   "For compressed outgoing messages the verdict is judged away from the boundary only (conservation always)."),
  "C07": ("F", "DESIGN.md §7 C07, §3.2",
    "Seeded exploration (engine F): tonic::codec::Streaming is driven poll by poll over simulated bodies carrying mutated/random byte strings in arbitrary chunkings, with injected Pending, body errors of several types, trailers and a silent peer; an independent sequential framing parser is the reference; the stream is polled past its first terminal event. A clean batch is evidence, not proof.",
    "Trusted: the harness's independent frame parser and flate2 write::*/zstd bulk decoders; body scripts are conformant HTTP bodies (nothing after trailers)."),
+ "C08": ("F", "DESIGN.md §7 C08",
+   "Seeded exploration (engine F): metadata maps (ASCII/binary, repeated keys, every length mod 3, reserved-name canaries) on requests, responses, trailers and error statuses cross tonic<->tonic over the loopback (wire tap: canaries never on the wire, -bin values are base64 of the original) and tonic<->foreign peer that pads or does not pad base64; the receiver reads through the typed accessors.",
+   "The accessor clause is a pure function of a map: sampled on every received map, not decided."),
 }
 
 NA = {
